@@ -343,6 +343,32 @@ def check_resubmission_cap(ctx, ctl) -> None:
                construct="_max_resubmission_attempts = 5")
 
 
+def check_state_before_shutdown(ctx, wf) -> None:
+    """finish() latches finishCalled first (the post-mortem veto then relies on finish() to give the component its final state), so the
+    store of the final state must not wait for anything that can fail: Engine.shutdown() asserts that the engine is not alive and raises
+    when another thread has just restarted it; _stopComponents swallows the exception - if the store came after the call, the component
+    would have no final state and a vetoed post-mortem, for ever."""
+    RID = "C02.R12-one-final-state"
+    n = 0
+    for q, f in sorted(wf.functions.items()):
+        if not (q == "ComponentState.finish" or q.startswith("ComponentState.finish.")):
+            continue
+        c = CFG(f)
+        stores = [nd for nd in c.nodes if nd.kind == "stmt" and isinstance(nd.ast, ast.Assign) and any(source.src(t) == "self.controllerState" for t in nd.ast.targets)
+                  and isinstance(nd.ast.value, ast.Name)]
+        sds = match.nodes_calling(c, lambda k: last_attr(k) == "shutdown")
+        for st in stores:
+            n += 1
+            before = [x for x in sds if st.id in c.reach([x], include_starts=False, ignore_labels=("exc", "except", "raise", "uncaught"))]
+            ctx.ob(RID, st.ast, not before,
+                   "the final state is stored before the engine is told to shut down" if not before else
+                   "%s calls engine.shutdown() BEFORE it stores the final state: shutdown() raises (AssertionError) when the engine is alive again - "
+                   "another thread restarted it between finish()'s state test and this call - the caller swallows the exception, finishCalled is "
+                   "already latched, so the restarted task's post-mortem is vetoed and the component stays in 'checking': run() never returns"
+                   % q.split(".", 1)[1], construct="%s: self.controllerState = <final state> before engine.shutdown()" % q.split(".")[-1])
+    ctx.floor(RID, n, 2, "stores of a requested final state in ComponentState.finish")
+
+
 def check_veto_at_delivery(ctx, ctl) -> None:
     """R10: typestate of the operator list of the postMortemCheck subscriptions: [.. hop ..]* veto [no hop]*"""
     FIRST_WINS = first_final_state_wins(ctx.repo.module(WORKFLOW))
@@ -730,6 +756,7 @@ def run(ctx) -> None:
     # ------------------------------------------------ R8
     check_finish_handshake(ctx, wf)
     check_veto_at_delivery(ctx, ctl)
+    check_state_before_shutdown(ctx, wf)
     check_resubmission_cap(ctx, ctl)
     check_controller_state_writes(ctx, ctl)
     check_observed_before_stopped(ctx, ctl)
